@@ -210,6 +210,21 @@ func (p *Prog) boundsObligations(fn *ssa.Function, cache map[*ssa.Function]*Anal
 				return true, ""
 			}
 			switch x := in.(type) {
+			case *ssa.SliceToArrayPointer:
+				// [N]T(s) / (*[N]T)(s) panics unless len(s) >= N
+				if pt, isP := x.Type().Underlying().(*types.Pointer); isP {
+					if at, isA := pt.Elem().Underlying().(*types.Array); isA {
+						n := at.Len()
+						ok, d := all(func(st *State) (bool, string) {
+							l := st.linOf(mkLen(a.exprOf(st, nil, x.X)))
+							if !st.impliedGE(l.add(linConst(n), -1)) {
+								return false, fmt.Sprintf("cannot show len >= %d for the converted slice: %s", n, trunc(l.key(), 80))
+							}
+							return true, ""
+						})
+						add("slice-to-array", in, key("convert", descValue(x.X)), ok, d)
+					}
+				}
 			case *ssa.IndexAddr, *ssa.Index:
 				var xv, iv ssa.Value
 				if ia, ok := x.(*ssa.IndexAddr); ok {
@@ -233,6 +248,9 @@ func (p *Prog) boundsObligations(fn *ssa.Function, cache map[*ssa.Function]*Anal
 						n = linConst(t.Len())
 					default:
 						n = st.linOf(mkLen(a.exprOf(st, nil, xv)))
+					}
+					if ia, isIA := x.(*ssa.IndexAddr); isIA && mapRangeCounterIdiom(ia) {
+						return true, "" // result[i] with i counting the entries of the ranged map, len(result) == len(map)
 					}
 					if !st.impliedGE(il) {
 						return false, "index may be negative: " + trunc(ie.Key, 60)
@@ -477,4 +495,85 @@ func (c *Check) checkBounds(rule string, fns []string, floor int) {
 		}
 	}
 	c.floor(rule, n, floor, "run-time-fault obligations")
+}
+
+// mapRangeCounterIdiom recognises
+//	r := make([]T, len(m)); i := 0; for ... range m { r[i] = ...; i++ }
+// where m is not updated inside the loop: i counts the entries already
+// visited, which is below len(m) == len(r) in every iteration.
+func mapRangeCounterIdiom(ia *ssa.IndexAddr) bool {
+	ms, ok := ia.X.(*ssa.MakeSlice)
+	if !ok {
+		return false
+	}
+	lc, ok := ms.Len.(*ssa.Call)
+	if !ok {
+		return false
+	}
+	if b, isB := lc.Call.Value.(*ssa.Builtin); !isB || b.Name() != "len" {
+		return false
+	}
+	m := lc.Call.Args[0]
+	if _, isMap := m.Type().Underlying().(*types.Map); !isMap {
+		return false
+	}
+	phi, ok := ia.Index.(*ssa.Phi)
+	if !ok || len(phi.Edges) != 2 {
+		return false
+	}
+	head := phi.Block()
+	// the loop head advances a range iterator over the same map value
+	var rng *ssa.Range
+	for _, in := range head.Instrs {
+		if nx, isN := in.(*ssa.Next); isN {
+			if r, isR := nx.Iter.(*ssa.Range); isR {
+				rng = r
+			}
+		}
+	}
+	sameMap := func(a, b ssa.Value) bool {
+		if a == b {
+			return true
+		}
+		la, ok1 := a.(*ssa.UnOp)
+		lb, ok2 := b.(*ssa.UnOp)
+		if ok1 && ok2 {
+			fa, ok3 := la.X.(*ssa.FieldAddr)
+			fb, ok4 := lb.X.(*ssa.FieldAddr)
+			return ok3 && ok4 && fa.X == fb.X && fa.Field == fb.Field
+		}
+		return false
+	}
+	if rng == nil || !sameMap(rng.X, m) {
+		return false
+	}
+	for i, e := range phi.Edges {
+		if head.Dominates(head.Preds[i]) {
+			bo, isB := e.(*ssa.BinOp)
+			if !isB || bo.Op != token.ADD || bo.X != ssa.Value(phi) {
+				return false
+			}
+			if one, isC := bo.Y.(*ssa.Const); !isC || one.Value == nil || one.Int64() != 1 {
+				return false
+			}
+		} else if c, isC := e.(*ssa.Const); !isC || c.Value == nil || c.Int64() != 0 {
+			return false
+		}
+	}
+	// no update of a map of that type inside the function (the registry is
+	// only read here) and no call in the loop that could change it: the loop
+	// body is a plain copy
+	okBody := true
+	for _, blk := range head.Parent().Blocks {
+		if !head.Dominates(blk) || !inLoopLocal(blk) {
+			continue
+		}
+		for _, in := range blk.Instrs {
+			switch in.(type) {
+			case *ssa.MapUpdate, *ssa.Call, *ssa.Go, *ssa.Defer:
+				okBody = false
+			}
+		}
+	}
+	return okBody
 }
